@@ -123,6 +123,7 @@ def _same_data(v, D):
 
 def check(ctx):
     p = ctx.prog
+    no_use_after_move(ctx, 'move.no_use_after_move', ['hep::vegas_refine_pdf', 'hep::vegas_chkpt::pdf', 'hep::vegas_chkpt::dimensions'])
     # all arithmetic behind this property happens in the numeric type T of the instantiation
     single_precision(ctx, 'prec.single_type', ['hep::vegas_pdf::', 'hep::vegas_icdf', 'hep::vegas_refine_pdf', 'hep::vegas_chkpt::'], 1)
     # no constructor of the classes this property computes with leaves a member indeterminate
